@@ -681,7 +681,7 @@ def plan(tier, seed):
     shards.append({"kind": "special"})
     shards.append({"kind": "unions"})
     for i in range(3):
-        shards.append({"kind": "chains", "seed": seed * 1000 + i, "n": 150 if tier == "quick" else 3000})
+        shards.append({"kind": "chains", "seed": seed * 1000 + i, "n": 1500 if tier == "quick" else 3000})
     return shards
 
 
